@@ -1085,6 +1085,26 @@ func (c *SpecCtx) call(n *ECall) TV {
 		}
 		c.e.declareFun(unbox, []string{SInt}, sorts[0])
 		return TV{Sc{app(sorts[0], smtSym(unbox), a.V.(Sc).T)}, t}
+	case "methodvalue": // methodvalue(x, recv, "name"): x is the method value recv.name made in this function
+		a := c.eval(n.Args[0])
+		r := c.eval(n.Args[1])
+		s, ok := n.Args[2].(*EStr)
+		if !ok {
+			c.fail("methodvalue needs a string literal method name")
+		}
+		sc, isSc := a.V.(Sc)
+		if !isSc {
+			c.fail("methodvalue: not a function value")
+		}
+		mc := c.e.closureOf[sc.T.S]
+		if mc == nil {
+			return TV{Sc{tFalse}, mathBool}
+		}
+		fn, _ := mc.Fn.(*ssa.Function)
+		if fn == nil || fn.Name() != s.V+"$bound" || len(mc.Bindings) != 1 {
+			return TV{Sc{tFalse}, mathBool}
+		}
+		return TV{Sc{eq(c.e.val(mc.Bindings[0]).(Sc).T, r.V.(Sc).T)}, mathBool}
 	case "typeis": // typeis(x, "pkg.T") dynamic type test on interface
 		a := c.eval(n.Args[0])
 		s, ok := n.Args[1].(*EStr)
